@@ -3,7 +3,7 @@ import matplotlib.pyplot as plt
 from numpy import ndarray, float64
 from numpy import array, savez, savez_compressed, load, zeros
 from numpy import var, isfinite, exp, mean, argmax, percentile, cov
-from numpy import sqrt, maximum, minimum, diagonal, ndim, where
+from numpy import sqrt, maximum, minimum, diagonal, ndim, where, atleast_2d
 from numpy.random import default_rng
 
 from inference.mcmc.utilities import Bounds, ChainProgressPrinter, effective_sample_size
@@ -206,7 +206,8 @@ class HamiltonianChain(MarkovChain):
         if diagonal:
             inverse_mass = var(array(self.theta[burn::thin]), axis=0)
         else:
-            inverse_mass = cov(array(self.theta[burn::thin]).T)
+            # (a matrix also for a single parameter, whose covariance is a 0-d array)
+            inverse_mass = atleast_2d(cov(array(self.theta[burn::thin]).T))
         self.mass = get_particle_mass(
             inverse_mass=inverse_mass, n_parameters=self.n_parameters
         )
